@@ -29,7 +29,7 @@ ENGINE = "spec/Lattice (type descriptors + recursive Reps/Abs/Join/Leq/IsBot/IsT
 _T = "TLA+ spec model-checked with TLC + conformance (TLC vectors/behaviours replayed into the code; code traces validated by TLC)"
 MANIFEST = {
     "C01": {
-        "text": "TLC checks associativity/commutativity/idempotence of Join on the model for every catalogued descriptor (34 types incl. nestings, derived struct, union-find) over its whole small carrier; the real merge_owned is run on all values, pairs and a spread sample of triples in every receiver representation and on seeded random larger values; TLC re-evaluates each recorded law instance both through the type's own == and through Abs-equality. DomPair is catalogued only over totally ordered keys (TLC confirms the non-total counterexample); Point only merges equal values.",
+        "text": "TLC checks associativity/commutativity/idempotence of Join on the model for every catalogued descriptor (34 types incl. nestings, derived struct, union-find) over its whole small carrier; the real merge_owned is run on all values, pairs and a spread sample of triples in every receiver representation and on seeded random larger values; TLC re-evaluates each recorded law instance both through the type's own == and through Abs-equality. For C01 DomPair is taken over totally ordered keys only (TLC confirms that associativity fails over a set / vector-clock key; those DomPairs are still checked for C02/C03/C04); Point only merges equal values.",
         "note": "Bounded: element domains 3 values, 2 keys, vec length <= 2, nesting depth 2 (wider in thorough); random values up to 6 elements. Tombstone variants belong to C05's family. Array/Vec backed sets/maps are only built with distinct keys.",
         "technique": _T,
         "design_ref": "DESIGN.md §6.1, §6.2",
@@ -47,7 +47,7 @@ MANIFEST = {
         "design_ref": "DESIGN.md §6.1, §9 item 4",
     },
     "C04": {
-        "text": "Every recorded merge / merge_owned / lattice_from result of every representation is Abs-compared by TLC with the model Join; union-find: TLC model checks the implementation-shaped find/union/same/merge against the partition semantics for all scripts from the empty map and for all arbitrary parent maps (find with Brent-style cycle detection terminates on every map; the pre-fix loop diverged exactly on rho-shaped maps), replays every behaviour into the real UnionFind on every backing map and validates the recorded results, revealed parent maps and termination (step budget).",
+        "text": "Every recorded merge / merge_owned / lattice_from result of every representation is Abs-compared by TLC with the model Join (incl. DomPair over partially ordered set / vector-clock keys: greater key wins, equal or incomparable keys merge key and value); union-find: TLC model checks the implementation-shaped find/union/same/merge against the partition semantics for all scripts from the empty map and for all arbitrary parent maps (find with Brent-style cycle detection terminates on every map; the pre-fix loop diverged exactly on rho-shaped maps), replays every behaviour into the real UnionFind on every backing map and validates the recorded results, revealed parent maps and termination (step budget).",
         "note": "uf/find/rho-cycle was fixed in 263fd4bfaa9 (a regression is reported under that fingerprint). Union-find bounds: 3 items, scripts <= 3 calls (4 items / longer in thorough), random histories 8 items x 12 calls.",
         "technique": _T,
         "design_ref": "DESIGN.md §6.1, §6.2, §9 item 1",
@@ -235,9 +235,9 @@ def _job_mc_gen(d, wide, thorough):
     r = vlib.tlc(SDL, "LatticeMC", cfg=cfg, workers=6, timeout=3000, env={"OUT": out})
     if not r.ok:
         raise vlib.ToolError("LatticeMC: a lattice law fails ON THE MODEL (spec error):\n" + r.error_trace[-3000:])
-    vlib.require_coverage(r, ["PickType", "PickValue", "PickNonLattice", "PickBimo", "PickBimoValue", "EmitType", "EmitBimo"])
+    vlib.require_coverage(r, ["PickType", "PickValue", "PickNonLattice", "PickBimo", "PickBimoValue", "EmitType", "EmitNonLattice", "EmitBimo"])
     nfiles = len([f for f in os.listdir(out) if f.endswith(".ndjson")])
-    if nfiles < 30:
+    if nfiles < 40 or not os.path.exists(os.path.join(out, "dom_set_set.ndjson")):
         raise vlib.ToolError("LatticeMC wrote only %d vector files" % nfiles)
     return r, out
 
@@ -449,7 +449,7 @@ def run(tier):
         "array/vec backed sets and maps are built with distinct keys only (the comparison code counts len())",
         "SetUnion<Vec> is exercised as merge argument and LatticeFrom source/target only (not a `Lattice`: no PartialOrd)",
         "VecUnion: the length is part of the value ([] < [bottom]); this is what ==, partial_cmp, is_bot and the flag of the code agree on",
-        "Point is only merged/compared with equal values; DomPair only over totally ordered key lattices (excluded inputs per the property text)",
+        "Point is only merged/compared with equal values; the C01 laws are not demanded of DomPair over partially ordered keys (excluded per the property text) -- its documented join, flag and comparisons are (C04/C02/C03)",
         "a non-returning call is detected by a step budget of %d key comparisons per call (deterministic)" % 200000,
     ]
     for pid in PROPS:
